@@ -250,6 +250,8 @@ def decode_apdu_header(frame):
         else:
             h.update(service=a[3], body=a[4:])
     elif t == 1:
+        h.update(service=a[1])
+    elif t == 2:
         h.update(invoke=a[1], service=a[2])
     elif t == 3:
         h.update(seg=bool(a[0] & 8), mor=bool(a[0] & 4), invoke=a[1])
